@@ -497,6 +497,34 @@ static ares_bool_t ai_has_ipv4(struct ares_addrinfo *ai)
   return ARES_FALSE;
 }
 
+/* An answer may carry address records of the family that was not asked for
+ * (e.g. AAAA records in the answer to the A question).  When the lookup is
+ * restricted to a single family those must not end up in the result.  Returns
+ * the number of nodes that remain. */
+static size_t hquery_filter_family(struct host_query *hquery)
+{
+  struct ares_addrinfo_node **pnode  = &hquery->ai->nodes;
+  int                         family = hquery->hints.ai_family;
+  size_t                      cnt    = 0;
+
+  while (*pnode != NULL) {
+    struct ares_addrinfo_node *node = *pnode;
+
+    if ((family == AF_INET || family == AF_INET6) &&
+        node->ai_family != family) {
+      *pnode        = node->ai_next;
+      node->ai_next = NULL;
+      ares_freeaddrinfo_nodes(node);
+      continue;
+    }
+
+    cnt++;
+    pnode = &node->ai_next;
+  }
+
+  return cnt;
+}
+
 static void host_callback(void *arg, ares_status_t status, size_t timeouts,
                           const ares_dns_record_t *dnsrec)
 {
@@ -509,8 +537,17 @@ static void host_callback(void *arg, ares_status_t status, size_t timeouts,
     if (dnsrec == NULL) {
       addinfostatus = ARES_EBADRESP; /* LCOV_EXCL_LINE: DefensiveCoding */
     } else {
+      size_t before = hquery_filter_family(hquery);
+
       addinfostatus =
         ares_parse_into_addrinfo(dnsrec, ARES_TRUE, hquery->port, hquery->ai);
+
+      /* Nothing of the requested family in this answer is the same as no
+       * data */
+      if (addinfostatus == ARES_SUCCESS &&
+          hquery_filter_family(hquery) == before) {
+        addinfostatus = ARES_ENODATA;
+      }
     }
 
     /* We sent out ipv4 and ipv6 requests simultaneously.  If we got a
